@@ -222,6 +222,31 @@ def snvpost(task):
                 dec.append({"thr": thr, "sampled": seen.get("nhet", 0) == 1, "allele": int(np.asarray(tr.genotypes)[0, 0, 0, 0]), "path": "fit"})
             res["decisions"] = dec
             out.append(res)
+        # embedding (SnvPosterior: the instance is one SNV): windows of three consecutive instances of the same (P, F) form a
+        # 3-SNV locus; each SNV's base calls sit on their own reads, which are gaps at the other two SNVs
+        sts = task["states"]
+        for i in range(len(sts)):
+            grp = [sts[(i + d) % len(sts)] for d in (-1, 0, 1)]
+            if len(sts) < 3 or any((g["P"], g["F"]) != (sts[i]["P"], sts[i]["F"]) for g in grp):
+                continue
+            P, F = sts[i]["P"], sts[i]["F"][0] / sts[i]["F"][1]
+            na = [g["n"] for g in grp]
+            mx = max(na)
+            rows = []
+            for j, g in enumerate(grp):
+                for cell, c in g["reads"]:
+                    r = np.full((3, mx), np.nan)
+                    if cell >= 0:
+                        r[j, :] = 0.0
+                        r[j, : g["n"]] = 0.125 / (g["n"] - 1)
+                        r[j, cell] = 0.875
+                    rows.append((r, c))
+            if not rows:
+                rows.append((np.full((3, mx), np.nan), 1))
+            reads = np.array([r for r, _ in rows])
+            counts = np.array([c for _, c in rows], dtype=np.int64)
+            hp = M._homozygosity_probabilities(reads, np.array(na, dtype=np.int8), P, F, counts)
+            out[i].setdefault("embedded", []).append({"na": na, "col": 1, "hom": [float(x) for x in hp[1]]})
     finally:
         M._denovo_assembler = orig_d
     return out
